@@ -245,9 +245,9 @@ U("ps.call_pubsub_cb", src="units/ps_unit.c", harness="h_call_pubsub_cb", enforc
   props=["C17", "C04", "C15", "C02"], contract_files=ABS + ["contracts/cb.contracts.h", "contracts/ps.contracts.h"], native=False, timeout=600, min_obligations=30)
 PROPS["C17"] = {"level": "proof", "level_text": "TODO", "level_note": "TODO", "not_decided": [], "explanation": "TODO"}
 EVTS = ABS + ["contracts/evts.contracts.h"]
-U("evts.become", src="units/evts_unit.c", harness="h_become", enforce="m_mod_become", replace=["m_ctx", "m_mod_is", "fetch_ms", "m_stack_push"], logctx="CORE",
+U("evts.become", src="units/evts_unit.c", harness="h_become", enforce="m_mod_become", replace=["m_ctx", "m_mod_is", "fetch_ms", "m_stack_push", "m_stack_peek", "m_stack_len"], logctx="CORE",
   props=["C17", "C18", "C14", "C01", "C04"], contract_files=EVTS, native=False, timeout=600, min_obligations=30)
-U("evts.unbecome", src="units/evts_unit.c", harness="h_unbecome", enforce="m_mod_unbecome", replace=["m_ctx", "m_mod_is", "fetch_ms", "m_stack_pop"], logctx="CORE",
+U("evts.unbecome", src="units/evts_unit.c", harness="h_unbecome", enforce="m_mod_unbecome", replace=["m_ctx", "m_mod_is", "fetch_ms", "m_stack_pop", "m_stack_peek", "m_stack_len"], logctx="CORE",
   props=["C17", "C18", "C14", "C01", "C04"], contract_files=EVTS, native=False, timeout=600, min_obligations=30)
 U("evts.stash", src="units/evts_unit.c", harness="h_stash", enforce="m_mod_stash", replace=["m_ctx", "m_mod_is", "fetch_ms", "m_mem_ref", "m_queue_enqueue"], logctx="CORE",
   props=["C16", "C18", "C14", "C04"], contract_files=EVTS, native=False, timeout=600, min_obligations=30)
@@ -293,8 +293,8 @@ U("ctx.recv_events", src="units/ctx_unit.c", harness="h_recv_events", enforce="r
   native=False, timeout=300, min_obligations=40, must_have=["invariant after step"])
 PROPS["C03"] = {"level": "proof", "level_text": "TODO", "level_note": "TODO", "not_decided": [], "explanation": "TODO"}
 PSC = ABS + ["contracts/cb.contracts.h", "contracts/ps.contracts.h"]
-U("ps.tell_if", src="units/ps_unit.c", harness="h_tell_if", enforce="tell_if", replace=["m_mem_new", "m_mem_ref", "m_mem_unref", "v_write"], logctx="CORE",
-  props=["C02", "C08", "C04"], contract_files=PSC, native=False, timeout=300, min_obligations=30, unwindset={"memcpy.0": 64})
+U("ps.tell_if_real", src="units/ps_real.c", harness="h_tell_if_real", plain=True, logctx="CORE",
+  props=["C02", "C08", "C04"], contract_files=[], native=True, timeout=300, min_obligations=20, unwind=8)
 PROPS["C02"] = {"level": "proof", "level_text": "TODO", "level_note": "TODO", "not_decided": [], "explanation": "TODO"}
 PROPS["C08"] = {"level": "proof", "level_text": "TODO", "level_note": "TODO", "not_decided": [], "explanation": "TODO"}
 PROPS["C04"] = {"level": "proof", "level_text": "TODO", "level_note": "TODO", "not_decided": [], "explanation": "TODO"}
